@@ -181,6 +181,25 @@ def step (s : St) (w : List String) : St × String :=
       let (t', o) := Trie.delete s.v s.t p
       ({ s with t := t', used := pathBytes p :: s.used, touched := none }, outcome t' o)
     | none => (s, "bad-op")
+  | ["insstr", p, b] =>
+    match parsePath p, unhex b with
+    | some p, some b =>
+      let (t', o) := Trie.insert maxSize s.v s.t p (Verif.DeadNodes.appendString b)
+      ({ s with t := t', used := pathBytes p :: s.used, touched := none }, outcome t' o)
+    | _, _ => (s, "bad-op")
+  | ["val", p] =>
+    match parsePath p with
+    | some p =>
+      ({ s with used := pathBytes p :: s.used },
+        match lookup s.t p with
+        | none => "notpresent"
+        | some b =>
+          let str := match Verif.DeadNodes.readString b with
+            | .ok (v, _) => if v.isEmpty then "-" else hex v
+            | _ => "err"
+          let vn := valueNode b
+          "ok " ++ hex b ++ " str=" ++ str ++ " vn=" ++ hex (encode vn) ++ " h=" ++ hex (sha3 (hashBytes vn)))
+    | none => (s, "bad-op")
   | ["layer"] => (s, "ok")
   | ["touch", v] => ({ s with touched := some v.toNat! }, "ok")
   | ["store"] => (s, storeLine s.t s.touched)
